@@ -303,6 +303,8 @@ def string_nfa(I: Interp, v: V) -> NFA:
         hi_c = hi.value if isinstance(hi, Const) else None
         if isinstance(lo, NumV) and hasattr(lo, "find"):
             sbase, fargs, k = lo.find
+            if _prov(sbase) != _prov(base):
+                raise PositionMismatch(f"the cut position is computed with .find() on `{sbase!r}` but applied to `{base!r}`")
             if k == 1 and len(fargs) == 1 and isinstance(fargs[0], Const) and len(fargs[0].value) == 1 and (hi_c is None):
                 return suffix_after_first(b, fargs[0].value)
             raise NoLang("find()-based slice")
@@ -318,6 +320,28 @@ def string_nfa(I: Interp, v: V) -> NFA:
     if getattr(v, "node", None) is not None and not getattr(v, "full", False):
         return node_nfa(I, v.node)
     raise NoLang(f"string of unknown provenance: {v!r}")
+
+
+class PositionMismatch(NoLang):
+    """A position found in one string is used to cut another one."""
+
+
+def _prov(v: V):
+    """Structural provenance of a string value (same provenance = same run-time string)."""
+    if isinstance(v, Const):
+        return ("const", v.value)
+    if hasattr(v, "op"):
+        meth, base, args = v.op
+        return ("op", meth, tuple(_prov(a) for a in args), _prov(base))
+    if hasattr(v, "slice_of"):
+        b, lo, hi = v.slice_of
+        return ("slice", _prov(b), repr(lo), repr(hi))
+    if hasattr(v, "concat"):
+        return ("concat", _prov(v.concat[0]), _prov(v.concat[1]))
+    node = getattr(v, "node", None)
+    if node is not None:
+        return ("text", getattr(v, "full", False), id(node.expr), tuple(node.path))
+    return ("obj", id(v))
 
 
 def _rel(x: V, which: str) -> Optional[int]:
